@@ -305,6 +305,15 @@ def build_exp_sampler(ctx, sc, callback=None, target=None):
 
 # --------------------------------------------------------------------------- hierarchical joints (Gibbs)
 
+def _perm(rec, dens):
+    """order of the densities in the joint = sweep order of the Gibbs samplers; rec['perm'] permutes it"""
+    p = rec.get("perm")
+    if not p:
+        return dens
+    idx = sorted(range(len(dens)), key=lambda i: (p[i % len(p)], i))
+    return [dens[i] for i in idx]
+
+
 def gibbs_joint(rec, ctx=None):
     """2..4 block hierarchical joint, already conditioned on data.  rec: {zseed, n, m, shape}.
     Returns (joint, data dict).  Pure function of the recipe: calling it twice gives a twin.
@@ -327,7 +336,7 @@ def gibbs_joint(rec, ctx=None):
         x = Gaussian(np.zeros(n), 1.0, name="x") if rec.get("xprior", "gauss") == "gauss" else \
             GMRF(np.zeros(n), 3.0, name="x")
         y = Gaussian(mk_model()(x), cov=lambda s: 1 / s, name="y")
-        J = JointDistribution(y, x, s)(y=yobs)
+        J = JointDistribution(*_perm(rec, [y, x, s]))(y=yobs)
     elif shape == "x_d_s":      # prior precision d, noise precision s
         d = Gamma(1.0, 1e-1, name="d")
         s = Gamma(1.0, 1e-1, name="s")
@@ -336,19 +345,19 @@ def gibbs_joint(rec, ctx=None):
         else:
             x = Gaussian(np.zeros(n), prec=lambda d: d, name="x")
         y = Gaussian(mk_model()(x), cov=lambda s: 1 / s, name="y")
-        J = JointDistribution(y, x, d, s)(y=yobs)
+        J = JointDistribution(*_perm(rec, [y, x, d, s]))(y=yobs)
     elif shape == "x_d_lmrf":   # LMRF prior with scale 1/d, fixed noise
         d = Gamma(1.0, 1e-1, name="d")
         x = LMRF(0, scale=lambda d: 1 / d, geometry=n, name="x")
         y = Gaussian(mk_model()(x), 0.3, name="y")
-        J = JointDistribution(y, x, d)(y=yobs)
+        J = JointDistribution(*_perm(rec, [y, x, d]))(y=yobs)
     elif shape == "x_z_s":      # two vector blocks entering one likelihood + noise precision
         s = Gamma(1.0, 1e-1, name="s")
         x = Gaussian(np.zeros(n), 1.0, name="x")
         z = Gaussian(np.zeros(n), 2.0, name="z")
         B = rs.randn(m, n)
         y = Gaussian(lambda x, z: A @ x + B @ z, cov=lambda s: 1 / s, name="y", geometry=m)
-        J = JointDistribution(y, x, z, s)(y=yobs)
+        J = JointDistribution(*_perm(rec, [y, x, z, s]))(y=yobs)
     else:
         raise ValueError(shape)
     return J, {"A": A, "y": yobs, "probes": probes}
@@ -376,6 +385,8 @@ def gen_gibbs_scenario(r, legacy=False):
     n = r.randint(2, 4)
     rec = {"zseed": r.randrange(1, 10 ** 6), "n": n, "m": n + r.randint(0, 2), "shape": shape,
            "xprior": r.choice(["gauss", "gmrf"])}
+    if r.random() < 0.5:
+        rec["perm"] = [r.randrange(10) for _ in range(4)]      # sweep order differs from the textbook order
     strat = {}
     for b in sorted(shapes[shape]):
         kind = r.choice(shapes[shape][b])
